@@ -112,7 +112,7 @@ var c17UnitSeconds = map[string]int64{"second": 1, "minute": 60, "hour": 3600, "
 // Mondays; month widths must be left to DuckDB.
 func VerifC17Bucket() {
 	form := zz.Choice("form", 3) // 0: time_bucket(w, t)  1: time_bucket(w, t, origin)  2: date_trunc(unit, t)
-	amount := []string{"1", "2", "5", "7", "15", "90"}[zz.Choice("amount", 6)]
+	amount := []string{"1", "2", "5", "7", "15", "90", "010", "030"}[zz.Choice("amount", 8)] // the last two: leading zeros (DuckDB reads them as decimal)
 	unitText := []string{"second", "seconds", "minute", "minutes", "hour", "hours", "day", "days", "week", "weeks", "month", "months"}[zz.Choice("unit", 12)]
 	unit := strings.TrimSuffix(unitText, "s")
 	ts := zz.Int64("timestamp_us")
